@@ -101,8 +101,12 @@ def dispatchDisk : List String → Option (Obs × Option Obs)
         (if mixed then [] else
           [ ("seq", hex (seqLine s)), ("paths", if s.len ≤ 3000 then hexList ps else "big") ]) ++
         [ ("be", showBool (s.base == pbase && s.ext == pext)),
-          ("exist", showBool exist) ]
-      some (m, some ([("err", "ok"), ("be", "1"), ("exist", "1")] ++ (if negz then [("~negzero", "1")] else [])))
+          ("exist", showBool exist),
+          ("strictok", showBool (strict != "1" ||
+              (match Seq.parse st pat with
+               | .ok f => f.pad.isEmpty || s.zfill == f.zfill
+               | .error _ => true))) ]
+      some (m, some ([("err", "ok"), ("be", "1"), ("exist", "1"), ("strictok", "1")] ++ (if negz then [("~negzero", "1")] else [])))
   | _ => none
 
 end Gfs.Ops
